@@ -505,6 +505,7 @@ func c09Suite(c *core.Collector, seed uint64, batch int, conns, nframes int) {
 		}(i)
 	}
 	wg.Wait()
+	c09UnfinishedSuite(c, srv, seed, batch, conns)
 }
 
 func c09Socket(c *core.Collector, x *Ctx) {
@@ -518,9 +519,144 @@ func c09Socket(c *core.Collector, x *Ctx) {
 	c.Count("socket_connections_starting_with_a_lone_fragment", c09FragFirst.Load())
 	c.Count("socket_connections_quiet_for_5_5_s_after_their_lone_fragment", c09QuietAfterFragment.Load())
 	c.Count("socket_join_and_notsupported_messages_rechecked", c09EventMsgs.Load())
+	c.Count("socket_messages_of_unfinished_transfers_rechecked_after_close", c09UnfinishedMsgs.Load())
 	c.Floor("socket_reassembled_transfers_completed_by_a_later_packet", 50)
+	c.Floor("socket_messages_of_unfinished_transfers_rechecked_after_close", 20)
 	d, tot := svc.SitesHit()
 	c.Count("yield_sites_hit", int64(d))
 	c.Count("yield_calls", int64(tot))
 	c.Floor("messages_rechecked_after_close", 500)
+}
+
+var c09UnfinishedMsgs atomic.Int64
+
+// c09Unfinished: the connection ends while sub-packaged transfers are still incomplete, and their packets had been handed to the
+// application: packet 1 as the message the connection joined with, packets of an ID without handler through the not-supported
+// callback, and — on a server configured with WithHasSubcontract(false) — every packet through the read callback. Whatever the
+// parser does with its records when the connection goes away, the messages the callbacks hold stay what they were.
+// (seed C09u1: the parser's clean-up at close zeroes the packet bodies of unfinished transfers, which ARE the delivered bodies.)
+func c09Unfinished(srv *svc.Server, cid int, seed uint64) (viol [][2]string, incon bool, checked int) {
+	bad := func(sig, detail string) { viol = append(viol, [2]string{sig, detail}) }
+	r := core.NewRand(seed, "c09unfinished", uint64(cid))
+	t, err := svc.Dial(srv.Addr, r.Bool(), fmt.Sprintf("%d", 4900000+cid))
+	if err != nil {
+		return nil, true, 0
+	}
+	defer t.Close()
+	first := uint16(0x500)
+	body := func(tag byte, n int, esc bool) []byte {
+		b := make([]byte, n)
+		for j := range b {
+			b[j] = byte(0x10 + (int(tag)+j*5)%0x60)
+		}
+		b[0] = tag
+		if esc {
+			b[n/2] = 0x7e // a frame that is unescaped into a buffer of its own
+		}
+		return b
+	}
+	var ws [][]byte
+	serial := first
+	add := func(f []byte) { ws = append(ws, f); serial++ }
+	// the connection joins with packet 1 of an upload that will never be finished
+	add(t.SubFrame(0x0801, serial, 4, 1, body(0xA1, 40+r.Intn(40), r.Bool())))
+	if r.Bool() {
+		add(t.SubFrame(0x0801, serial, 4, 3, body(0xA3, 40+r.Intn(40), r.Bool())))
+	}
+	add(t.Frame(0x0002, serial, nil))
+	// an ID nobody handles, sub-packaged, unfinished
+	add(t.SubFrame(0x0f10, serial, 3, 1, body(0xB1, 30+r.Intn(50), r.Bool())))
+	add(t.SubFrame(0x0f10, serial, 3, 2, body(0xB2, 30+r.Intn(50), r.Bool())))
+	// a location batch, sub-packaged, unfinished (a handled ID other than the one the connection joined with)
+	add(t.SubFrame(0x0704, serial, 3, 1, body(0xC1, 50+r.Intn(30), r.Bool())))
+	add(t.SubFrame(0x0704, serial, 3, 3, body(0xC3, 50+r.Intn(30), r.Bool())))
+	add(t.Frame(0x0002, serial, nil))
+	if r.Bool() {
+		var all []byte
+		for _, w := range ws {
+			all = append(all, w...)
+		}
+		t.Write(all)
+	} else {
+		for _, w := range ws {
+			t.Write(w)
+			time.Sleep(time.Duration(200+r.Intn(1500)) * time.Microsecond)
+		}
+	}
+	// both heartbeats answered: everything before them has been through the callbacks
+	last := serial - 1
+	for {
+		rx, ok, to := t.Next(30 * time.Second)
+		if to || !ok {
+			return nil, true, 0
+		}
+		if rx.F != nil && rx.F.ID == 0x8001 && len(rx.F.Body) >= 2 && uint16(rx.F.Body[0])<<8|uint16(rx.F.Body[1]) == last {
+			break // the answer to the last heartbeat: everything before it has been through the callbacks
+		}
+	}
+	if r.Bool() {
+		t.Reset()
+	} else {
+		t.Close()
+	}
+	rec := svc.Lookup(t.Phone, first)
+	if rec == nil || !rec.WaitLeave(40*time.Second) {
+		return nil, true, 0
+	}
+	time.Sleep(20 * time.Millisecond) // the reader's deferred clean-up runs around the leave callback
+	for _, e := range rec.ReaderLog() {
+		if e.Msg == nil || e.Msg.JTMessage == nil || e.Msg.JTMessage.Header == nil || (e.Kind != "join" && e.Kind != "notsupp" && e.Kind != "read") {
+			continue
+		}
+		m := e.Msg
+		checked++
+		c09UnfinishedMsgs.Add(1)
+		h := m.JTMessage.Header
+		switch {
+		case !bytes.Equal(m.JTMessage.Body, e.Data):
+			bad("stable|body of a message handed to the "+e.Kind+" callback changed when the connection ended with its transfer unfinished", fmt.Sprintf("conn %d id %04x serial %d package %d/%d: was %s now %s", cid, e.ID, e.Serial, e.No, e.Sum, core.HexCap(e.Data, 16), core.HexCap(m.JTMessage.Body, 16)))
+		case !bytes.Equal(m.ExtensionFields.TerminalData, e.Raw):
+			bad("stable|raw frame bytes of a message handed to the "+e.Kind+" callback changed when the connection ended with its transfer unfinished", fmt.Sprintf("conn %d id %04x serial %d package %d/%d", cid, e.ID, e.Serial, e.No, e.Sum))
+		case h.ID != e.ID || h.SerialNumber != e.Serial || h.TerminalPhoneNo != e.Phone || (e.HdrDump != "" && svc.DumpBytesAndStrings(h) != e.HdrDump):
+			bad("stable|header of a message handed to the "+e.Kind+" callback changed when the connection ended with its transfer unfinished", fmt.Sprintf("conn %d id %04x serial %d", cid, e.ID, e.Serial))
+		}
+		if len(viol) > 2 {
+			break
+		}
+	}
+	return
+}
+
+// c09UnfinishedSuite runs c09Unfinished against the suite's server (default: packets filtered from the read callbacks) and
+// against a second server that hands every packet to the read callbacks (WithHasSubcontract(false)).
+func c09UnfinishedSuite(c *core.Collector, srv *svc.Server, seed uint64, batch, conns int) {
+	raw, err := svc.Start(func() service.TerminalEventer {
+		r := svc.NewRecorder()
+		r.KeepMsg = true
+		return r
+	}, service.WithHasSubcontract(false))
+	if err != nil {
+		c.Inconclusive()
+		return
+	}
+	var wg sync.WaitGroup
+	for i := 0; i < 2*conns; i++ {
+		wg.Add(1)
+		go func(i int) {
+			defer wg.Done()
+			s := srv
+			if i%2 == 1 {
+				s = raw
+			}
+			viol, incon, n := c09Unfinished(s, batch*1000+800+i, seed)
+			c.Evals(int64(n))
+			if incon {
+				c.Inconclusive()
+			}
+			for _, v := range viol {
+				c.Violate(v[0], v[1], nil)
+			}
+		}(i)
+	}
+	wg.Wait()
 }
